@@ -4,6 +4,7 @@ import (
 	"fmt"
 	"testing"
 
+	"go.miragespace.co/specter/spec/chord"
 	"verifharness/internal/ev"
 	"verifharness/internal/ringsim"
 
@@ -14,7 +15,7 @@ import (
 // the identifier.
 func TestC01(t *testing.T) {
 	rec := ev.New(t, "C01")
-	rec.Rule("rapid-generated rings: N in 1..12 (thorough 1..32) real LocalNodes with ids from layout generators (uniform, clustered, adjacent runs, extremes 0/1/2^48-2/2^48-1, small), built by Create + serial Join through a generated existing member over the RPC-emulating proxies, settled by synchronous maintenance rounds until predecessor/successor-list/all 48 fingers match the true ring order; then FindSuccessor from EVERY member for member ids, ids±1, 0, 2^48-1 and uniform identifiers. Oracle: sorted-membership owner(x) = first id >= x else min id; no lookup may error. A case is one ring; non-trivial: N >= 3 and the query set contains an identifier equal to a member id and one that wraps past the largest id. Distinct = distinct (id set, join order).")
+	rec.Rule("rapid-generated rings: N in 1..12 (thorough 1..32) real LocalNodes with ids from layout generators (uniform, clustered, adjacent runs, extremes 0/1/2^48-2/2^48-1, small), built by Create + serial Join through a generated existing member over the RPC-emulating proxies, settled by synchronous maintenance rounds until predecessor/successor-list/all 48 fingers match the true ring order; then FindSuccessor from EVERY member for member ids, ids±1, 0, 2^48-1 and uniform identifiers. In two cases out of three the ring then SHRINKS: a generated subset of members (never all) leaves gracefully one after the other, the ring is settled again, and the same queries - plus the departed ids and their neighbours - are asked from every remaining member (rings that end with <= 4 members keep departed nodes in the tails of their successor lists, observation O1). Oracle: sorted-membership owner(x) = first id >= x else min id over the CURRENT members; no lookup may error. A case is one ring; non-trivial: N >= 3 and the query set contains an identifier equal to a member id and one that wraps past the largest id. Distinct = distinct (id set, join order, leavers).")
 	rec.Assume("the ring has converged (checked with the C02 oracle before querying; unconverged rings are counted as inconclusive here and are C02's business)",
 		"inter-node calls go through the harness proxy that emulates RemoteNode/Server (identity-only, error mapping through rpc.WrapError+chord.ErrorMapper)")
 	maxN := ev.Pick(12, 32)
@@ -22,6 +23,10 @@ func TestC01(t *testing.T) {
 		ids := genLayoutIDs(1, maxN).Draw(t, "ids")
 		vias := rapid.SliceOfN(rapid.IntRange(0, 1<<20), len(ids), len(ids)).Draw(t, "vias")
 		extra := rapid.SliceOfN(rapid.Uint64Range(0, ringMax), 8, 8).Draw(t, "queries")
+		var leavers []int
+		if len(ids) >= 2 && rapid.IntRange(0, 2).Draw(t, "shrink") > 0 {
+			leavers = rapid.SliceOfNDistinct(rapid.IntRange(0, len(ids)-1), 1, len(ids)-1, rapid.ID[int]).Draw(t, "leavers")
+		}
 		r := newSimRing(ringsim.Config{Seed: int64(ids[0]) + 1})
 		defer r.net.Close()
 		if err := r.buildRing(ids, func(i int) int { return vias[i] }); err != nil {
@@ -35,68 +40,97 @@ func TestC01(t *testing.T) {
 			t.Logf("not converged after %d rounds: %s", rounds, c.Problem)
 			return
 		}
-		sorted := sortedIDs(ids)
+		allSorted := sortedIDs(ids)
 		queries := append([]uint64{0, ringMax}, extra...)
-		for _, id := range sorted {
+		for _, id := range allSorted {
 			queries = append(queries, id, (id+1)&ringMax, (id-1)&ringMax)
 		}
 		hasWrap := false
 		for _, q := range queries {
-			if q > sorted[len(sorted)-1] {
+			if q > allSorted[len(allSorted)-1] {
 				hasWrap = true
 			}
 		}
-		caseDoc := map[string]any{"ids": ids, "via": vias, "rounds_to_converge": rounds, "queries": len(queries) * len(ids)}
+		caseDoc := map[string]any{"ids": ids, "via": vias, "rounds_to_converge": rounds, "queries": len(queries) * len(ids), "leavers": leavers}
 		labels := []string{fmt.Sprintf("N=%d", len(ids))}
 		if c.StaleTails > 0 {
 			labels = append(labels, "stale-tail")
 		}
-		rec.Case(len(ids) >= 3 && hasWrap, fmt.Sprint(ids, vias[:len(ids)]), func() any { return caseDoc }, labels...)
+		if len(leavers) > 0 {
+			labels = append(labels, "shrinks", fmt.Sprintf("members-after-shrink:%d", len(ids)-len(leavers)))
+		}
+		rec.Case(len(ids) >= 3 && hasWrap, fmt.Sprint(ids, vias[:len(ids)], leavers), func() any { return caseDoc }, labels...)
 		lookups := 0
-		for _, m := range r.live() {
-			for _, q := range queries {
-				got, err := m.Node.FindSuccessor(q)
-				lookups++
-				want := ownerOf(sorted, q)
-				if err == nil && got != nil && got.ID() == want {
-					continue
+		// verify asks every remaining member every query; false = stop the case (inconclusive)
+		verify := func(stage string) bool {
+			sorted := liveIDs(r.live())
+			for _, m := range r.live() {
+				for _, q := range queries {
+					got, err := m.Node.FindSuccessor(q)
+					lookups++
+					want := ownerOf(sorted, q)
+					if err == nil && got != nil && got.ID() == want {
+						continue
+					}
+					var g any = nil
+					if got != nil {
+						g = got.ID()
+					}
+					// "Once the ring has stabilized": a maintenance call that was computed from older
+					// information and stored after the convergence check (two stabilizers run concurrently
+					// by design) can transiently un-converge the ring. A wrong answer or an error counts
+					// only if the ring is still converged right after the lookup AND the failure reproduces
+					// on the re-settled ring (a stale write may have been repaired between the lookup and
+					// the re-check; a genuine routing defect is persistent).
+					if c2 := checkConverged(r.live(), true, false); c2.Problem != "" {
+						rec.Inconclusive("ring-destabilised-by-in-flight-maintenance")
+						t.Logf("lookup mismatch on a ring that is no longer converged: %s", c2.Problem)
+						return false
+					}
+					persistent := true
+					for try := 0; try < 3 && persistent; try++ {
+						if _, c3 := r.settle(20, true, nil, false); c3.Problem != "" {
+							persistent = false
+							break
+						}
+						g2, e2 := m.Node.FindSuccessor(q)
+						if e2 == nil && g2 != nil && g2.ID() == want {
+							persistent = false
+						}
+					}
+					if !persistent {
+						rec.Inconclusive("transient-lookup-failure-not-reproducible-on-settled-ring")
+						return false
+					}
+					if err != nil {
+						rec.Fail(t, "lookup-error-on-stable-ring", map[string]any{"ids": ids, "via": vias, "leavers": leavers, "stage": stage, "members": sorted, "start": m.ID, "key": q, "err": err.Error()},
+							"%s: FindSuccessor(%d) from %d on stable ring %v: error %v", stage, q, m.ID, sorted, err)
+					}
+					rec.Fail(t, "wrong-owner", map[string]any{"ids": ids, "via": vias, "leavers": leavers, "stage": stage, "members": sorted, "start": m.ID, "key": q, "got": g, "want": want},
+						"%s: FindSuccessor(%d) from %d = %v, want %d (ring %v)", stage, q, m.ID, g, want, sorted)
 				}
-				var g any = nil
-				if got != nil {
-					g = got.ID()
-				}
-				// "Once the ring has stabilized": a maintenance call that was computed from older
-				// information and stored after the convergence check (two stabilizers run concurrently
-				// by design) can transiently un-converge the ring. A wrong answer or an error counts
-				// only if the ring is still converged right after the lookup AND the failure reproduces
-				// on the re-settled ring (a stale write may have been repaired between the lookup and
-				// the re-check; a genuine routing defect is persistent).
-				if c2 := checkConverged(r.live(), true); c2.Problem != "" {
-					rec.Inconclusive("ring-destabilised-by-in-flight-maintenance")
-					t.Logf("lookup mismatch on a ring that is no longer converged: %s", c2.Problem)
+			}
+			return true
+		}
+		if !verify("ring as built") {
+			return
+		}
+		if len(leavers) > 0 {
+			for _, li := range leavers {
+				m := r.members[ids[li]]
+				m.Node.Leave()
+				if m.Node.VerifState() != chord.Left {
+					rec.Inconclusive("leave-did-not-complete")
 					return
 				}
-				persistent := true
-				for try := 0; try < 3 && persistent; try++ {
-					if _, c3 := r.settle(20, true, nil); c3.Problem != "" {
-						persistent = false
-						break
-					}
-					g2, e2 := m.Node.FindSuccessor(q)
-					if e2 == nil && g2 != nil && g2.ID() == want {
-						persistent = false
-					}
-				}
-				if !persistent {
-					rec.Inconclusive("transient-lookup-failure-not-reproducible-on-settled-ring")
-					return
-				}
-				if err != nil {
-					rec.Fail(t, "lookup-error-on-stable-ring", map[string]any{"ids": ids, "via": vias, "start": m.ID, "key": q, "err": err.Error()},
-						"FindSuccessor(%d) from %d on stable ring %v: error %v", q, m.ID, sorted, err)
-				}
-				rec.Fail(t, "wrong-owner", map[string]any{"ids": ids, "via": vias, "start": m.ID, "key": q, "got": g, "want": want},
-					"FindSuccessor(%d) from %d = %v, want %d (ring %v)", q, m.ID, g, want, sorted)
+			}
+			if _, c4 := r.settle(80, true, nil, false); c4.Problem != "" {
+				rec.Inconclusive("ring-not-converged-after-shrinking")
+				t.Logf("not converged after the leaves: %s", c4.Problem)
+				return
+			}
+			if !verify(fmt.Sprintf("after %d graceful leaves", len(leavers))) {
+				return
 			}
 		}
 		rec.Add("lookups", int64(lookups))
